@@ -5,7 +5,8 @@
 
    Every record kind has its own lemma (prelex_start_of_antenna, prelex_type_serial, prelex_dazi, prelex_zen,
    prelex_nfreq, prelex_valid, prelex_start_of_frequency, prelex_neu, prelex_noazi, prelex_azi_row,
-   prelex_end_of_frequency, prelex_end_of_antenna).  No axioms. *)
+   prelex_end_of_frequency, prelex_start_of_freq_rms, prelex_end_of_freq_rms, prelex_end_of_antenna);
+   prelex_render_freq / prelex_render_rms for whole sections.  No axioms. *)
 From Coq Require Import ZArith QArith List Bool String Ascii Arith Lia.
 From Verif Require Import Lib.Dyadic Lib.Text Model.C15_Antex.
 Import ListNotations.
@@ -413,6 +414,40 @@ Proof.
     destruct az as [|c r]; [congruence|exact T].
 Qed.
 
+(* the table-independent facts about correction rows (used by Proofs/C15_Covers.v) *)
+Lemma corr_facts line :
+  rtrimmed is_space line = true -> all_by bn (slice 60 61 line) = true ->
+  rstrip line = line /\ label_of line = "CORRECTION".
+Proof.
+  intros Hr Hb. split; [apply rstrip_by_rtrimmed, Hr|].
+  apply label_of_corr. destruct (slice 60 61 line) as [|c r]; auto.
+  simpl in Hb. apply andb_true_iff in Hb as [Hb _]. apply bn_not_label, Hb.
+Qed.
+
+Lemma noazi_facts vals :
+  forallb (numtok 7) vals = true ->
+  rstrip ("   NOAZI" ++ render_values vals) = "   NOAZI" ++ render_values vals
+  /\ label_of ("   NOAZI" ++ render_values vals) = "CORRECTION".
+Proof.
+  intros H. pose proof (render_values_bn vals H) as B. pose proof (render_values_rtrimmed vals H) as R.
+  apply corr_facts.
+  - apply rtrimmed_app2; [reflexivity|exact R].
+  - rewrite (slice_skip 8 "   NOAZI" 52 53 _ eq_refl : slice 60 61 ("   NOAZI" ++ render_values vals) = _).
+    apply all_by_slice, B.
+Qed.
+
+Lemma azi_row_facts az vals :
+  numtok 8 az = true -> forallb (numtok 7) vals = true ->
+  rstrip (rjust 8 az ++ render_values vals) = rjust 8 az ++ render_values vals
+  /\ label_of (rjust 8 az ++ render_values vals) = "CORRECTION".
+Proof.
+  intros Ha H. pose proof (render_values_bn vals H) as B. pose proof (render_values_rtrimmed vals H) as R.
+  apply numtok_inv in Ha as (Hne & Hn & L & _ & T).
+  apply corr_facts.
+  - apply rtrimmed_app2; [apply rtrimmed_rjust; assumption|exact R].
+  - apply all_by_slice. rewrite rjust_spaces, !all_by_app, all_bn_spaces, (all_bn_num _ Hn), B. reflexivity.
+Qed.
+
 (* ====================================================================================== frequencies *)
 Lemma prelex_render_freq f :
   wf_freq f = true -> map (prelex std_table) (render_freq f) = lex_freq f.
@@ -436,12 +471,53 @@ Proof.
   apply andb_true_iff in H as [Hf Hr]. rewrite map_app, (prelex_render_freq f Hf), (IH Hr). reflexivity.
 Qed.
 
+(* ------------------------------------------------------------------------------ rms sections *)
+Lemma prelex_start_of_freq_rms c :
+  fitsb 3 c = true ->
+  prelex std_table (spaces 3 ++ ljust 3 c ++ spaces 54 ++ "START OF FREQ RMS") = (None, false).
+Proof.
+  intros H. apply fitsb_inv in H as [T L].
+  apply (prelex_unlabelled _ (spaces 3 ++ ljust 3 c ++ spaces 54) "START OF FREQ RMS");
+    [rewrite ?app_assoc; reflexivity | lens | reflexivity | reflexivity | reflexivity].
+Qed.
+
+Lemma prelex_end_of_freq_rms c :
+  fitsb 3 c = true ->
+  prelex std_table (spaces 3 ++ ljust 3 c ++ spaces 54 ++ "END OF FREQ RMS") = (None, false).
+Proof.
+  intros H. apply fitsb_inv in H as [T L].
+  apply (prelex_unlabelled _ (spaces 3 ++ ljust 3 c ++ spaces 54) "END OF FREQ RMS");
+    [rewrite ?app_assoc; reflexivity | lens | reflexivity | reflexivity | reflexivity].
+Qed.
+
+Lemma prelex_render_rms f :
+  wf_freq f = true -> map (prelex std_table) (render_rms f) = lex_rms f.
+Proof.
+  unfold wf_freq. intros H.
+  apply andb_true_iff in H as [H Hrows]. apply andb_true_iff in H as [H Hnoazi].
+  apply andb_true_iff in H as [H Hu]. apply andb_true_iff in H as [H He]. apply andb_true_iff in H as [Hc Hn].
+  unfold render_rms, lex_rms. rewrite !map_app, map_map. cbn [map].
+  rewrite (prelex_start_of_freq_rms _ Hc), (prelex_neu _ _ _ Hn He Hu), (prelex_noazi _ Hnoazi),
+          (prelex_end_of_freq_rms _ Hc).
+  do 2 f_equal. apply map_ext_in. intros r Hr.
+  rewrite forallb_forall in Hrows. specialize (Hrows r Hr). apply andb_true_iff in Hrows as [Ha Hv].
+  apply prelex_azi_row; assumption.
+Qed.
+
+Lemma prelex_render_rmss fs :
+  forallb wf_freq fs = true ->
+  map (prelex std_table) (List.concat (map render_rms fs)) = List.concat (map lex_rms fs).
+Proof.
+  induction fs as [|f r IH]; [reflexivity|]. cbn [forallb map List.concat]. intros H.
+  apply andb_true_iff in H as [Hf Hr]. rewrite map_app, (prelex_render_rms f Hf), (IH Hr). reflexivity.
+Qed.
+
 (* ====================================================================================== antennas *)
 Lemma prelex_render_ant_head a :
   wf_ant a = true -> map (prelex std_table) (render_ant_head a) = lex_ant_head a.
 Proof.
   unfold wf_ant. intros H.
-  do 11 (apply andb_true_iff in H as [H ?]).
+  do 12 (apply andb_true_iff in H as [H ?]).
   unfold render_ant_head, lex_ant_head. rewrite !map_app. cbn [map].
   rewrite prelex_start_of_antenna, prelex_type_serial, prelex_dazi, prelex_zen, prelex_nfreq by assumption.
   rewrite (prelex_opt_valid (am_from a) "VALID FROM" "parse_valid_from") by (auto; assumption).
@@ -453,7 +529,8 @@ Lemma prelex_render_ant : forall a : ant_m,
   wf_ant a = true -> map (prelex std_table) (render_ant a) = lex_ant a.
 Proof.
   intros a H. unfold render_ant, lex_ant. rewrite !map_app, (prelex_render_ant_head a H).
-  assert (Hf : forallb wf_freq (am_freqs a) = true).
-  { unfold wf_ant in H. apply andb_true_iff in H as [_ H]. exact H. }
-  rewrite (prelex_render_freqs _ Hf). cbn [map]. rewrite prelex_end_of_antenna. reflexivity.
+  assert (Hf : forallb wf_freq (am_freqs a) = true /\ forallb wf_freq (am_rms a) = true).
+  { unfold wf_ant in H. apply andb_true_iff in H as [H Hr]. apply andb_true_iff in H as [_ H]. auto. }
+  destruct Hf as [Hf Hr].
+  rewrite (prelex_render_freqs _ Hf), (prelex_render_rmss _ Hr). cbn [map]. rewrite prelex_end_of_antenna. reflexivity.
 Qed.
